@@ -85,12 +85,10 @@ def check(rep, ctx):
                   message="the loop keeps reading until it has enough bytes but never tests the chunk it got: at end of stream read() returns b'' "
                           "forever and the decoder spins instead of raising BufferUnderflow", file=l["file"], line=l["line"])
     rep.count(R_LOOP, 1, instance="scan")
-    if unreached and not rep.findings:
-        raise AnalysisError("; ".join(unreached))
     xr = [a for a in eng["atoms"] if a["kind"] == "xread"]
     if not xr:
-        rep.check(R_B, False, construct="kio.serial.readers", stmt="no checked exact read found",
-                  message="no function of the decode path was recognised as a checked exact read", file="src/kio/serial/readers.py")
+        # not recognising the idiom is the analyser's inability, not a fact about the code: a limit unless something concrete is found
+        unreached.append("no function of the decode path was recognised as a checked exact read")
     for a in {(a["fn"], a["exc"], a["line"]) for a in xr}:
         rep.check(R_B, a[1] == "BufferUnderflow", construct=a[0], stmt=f"short read raises {a[1]}",
                   message=f"the length check of {a[0]} raises {a[1]}, not BufferUnderflow",
@@ -143,3 +141,5 @@ def check(rep, ctx):
     rep.sample({"rule": "C06-b-checked", "atom": xr[0] if xr else None})
     rep.extra.update(read_sites=n_sites, functions_on_decode_and_encode_paths=len(eng["functions"]),
                      depends_on="C01-b (exact consumption) for the existence of a crossing read")
+    if unreached and not rep.findings:
+        raise AnalysisError("; ".join(unreached))
